@@ -2,9 +2,9 @@ package drive
 
 import (
 	"bytes"
-	"io"
 	"encoding/json"
 	"fmt"
+	"io"
 	"sync"
 	"time"
 
